@@ -373,6 +373,11 @@ def run(ctx):
                 r.violate(key, f"{f.key}: after a handler returned Err another handler call is still reachable (the remaining handlers run, and may emit output, before the error is returned)", f.loc())
     r.count("handler_call_sites", n66)
 
+    # ------------------------------------------------------------------ R12.7 (shared with C11 R11.1)
+    # after an error for which graceful bail-out is off nothing more reaches the sink: no bail-out handler / flush on the false edge
+    from .c11 import rule_bail_out_sites
+    rule_bail_out_sites(ctx, mir, rid="R12.7")
+
     ctx.not_decided += ["the prefix relation between the output of a failed run and of the complete run (run-time)"]
     ctx.assumptions += ["values listed in the reviewed non-emptiness table (lexeme raw bytes, validated names) are non-empty for the stated reasons"]
     return ("Who-may-call and dominance rules over every call that hands bytes to the OutputSink or to an output handler "
